@@ -100,13 +100,14 @@ CHECKS["C16"] = {
 CHECKS["C13"] = {
     "level": "exploration",
     "technique": "structure-aware generation: reference-emitted headers with field-level mutations (boundary integers, 1..11-byte and raw encodings, count/entry mismatches), always re-sealed; differential comparison of every public getter and the chunk iteration against an independent specification-derived parser",
-    "level_text": "Thousands of generated headers per run get behind the header-checksum gate by construction (the emitter seals every image). Whenever the library opens one, every getter and the whole chunk iteration are compared with the independent parse, and integer fields that are over-long, >= 2^64 or do not fit an int-sized destination must have caused rejection. Sampled; the integer boundary values are drawn from an explicit list (2^7k, 2^31, 2^32, 2^63, 2^64 +-1, 2^70).",
+    "level_text": "Thousands of generated headers per run get behind the header-checksum gate by construction (the emitter seals every image). Whenever the library opens one, every getter and the whole chunk iteration are compared with the independent parse, and integer fields that are over-long, >= 2^64 or do not fit an int-sized destination must have caused rejection. For a share of the opened headers the text printed by the ASan build of `zck_read_header -c` is parsed and compared with the same reference parse. Sampled; the integer boundary values are drawn from an explicit list (2^7k, 2^31, 2^32, 2^63, 2^64 +-1, 2^70).",
     "level_note": "Trusted: ref/zckref.hpp parser and ref/fields.hpp emitter (written from zchunk_format.txt). A getter returning its error value (< 0) for a quantity >= 2^63 counts as rejection. Headers the reference rejects for structural reasons other than integer fitting are not compared (labelled).",
     "rule": "case = generated header fields (hash types, flags, optional elements, 0..60 entries, sizes up to 2^64) + 0..3 field mutations + optional body bytes. Non-trivial = the library opened the header, the reference parsed it, and it has >= 2 index entries or at least one mutation. Distinct by choice-sequence hash.",
     "assumptions": ["reference parser is correct", "a header both accepted by the reference and refused by the library is not a violation (counted as over-strict-refusal)"],
     "runs": [
         {"bin": "asan/C13", "cases": P(50000, 400000), "procs": P(8, 16), "size": 70, "shrink_budget": 300},
     ],
+    "extra_targets": ["asan/tools/zck_read_header"],
 }
 
 TOOLS = ["asan/tools/zck", "asan/tools/unzck", "asan/tools/zck_read_header", "asan/tools/zck_delta_size", "asan/tools/zck_gen_zdict", "asan/tools/zckdl"]
